@@ -87,7 +87,31 @@ def r12_3(ctx):
     return rr
 
 
-RULES = [r12_1, r12_2, r12_3]
+def r12_4(ctx):
+    rr = RuleResult("R12.4", "REF", "vindex keys are bounds-checked (raise IndexError) before they are wrapped with the modulo", min_instances=1)
+    f = ctx.repo.mod("dask_array.slicing._vindex").func("_vindex")
+    cfg = cfg_of(ctx, f)
+    mods = [s for s in cfg.stmts() if isinstance(s, ast.AugAssign) and isinstance(s.op, ast.Mod)]
+    mods += [s for s in cfg.stmts() if isinstance(s, ast.Assign) and isinstance(s.value, ast.BinOp) and isinstance(s.value.op, ast.Mod)]
+    need(mods, "the negative-index wrap (ind %= size) in _vindex")
+    for s in mods:
+        var = unparse(s.target) if isinstance(s, ast.AugAssign) else unparse(s.targets[0])
+        size = unparse(s.value) if isinstance(s, ast.AugAssign) else unparse(s.value.right)
+        g = cfg.guards(s)
+        ok = False
+        for t, pol in g:
+            ids = idents_in(t)
+            cmp_ops = {type(o).__name__ for n in ast.walk(t) if isinstance(n, ast.Compare) for o in n.ops}
+            lower = any(isinstance(n, ast.UnaryOp) and isinstance(n.op, ast.USub) for n in ast.walk(t))
+            if pol is False and var in ids and size in ids and "GtE" in cmp_ops and "Lt" in cmp_ops and lower:
+                ok = True
+        rr.inst(site(f, s), wraps=var, by=size, guards=[(unparse(t)[:80], pol) for t, pol in g])
+        if not ok:
+            ctx.finding(rr, site(f, s), f"{var} is wrapped modulo {size} without a dominating `({var} >= {size}) | ({var} < -{size})` -> IndexError check: out-of-bounds keys silently select wrapped positions", func=f, node=s)
+    return rr
+
+
+RULES = [r12_1, r12_2, r12_3, r12_4]
 
 LEVEL_TEXT = (
     "Static decision of a single necessary condition of C12: the per-chunk offset literals (and the x_chunks literal) "
